@@ -51,6 +51,31 @@ def task(t):
         if what == "sum":
             a = make(t["ka"], t["ca"])
             return outcome(lambda: mg.sum(a, constant=arg))
+        if what == "pow_op":
+            a = make(t["ka"], t["ca"])
+            pw = mg.tensor(float(t["pval"]), constant=t["cb"])
+            return outcome(lambda: a ** pw)
+        if what == "out_target":
+            z = make("float64", t["cz"])
+            x = make(t["ka"], t["ca"])
+            return outcome(lambda: mg.multiply(x, 2.0, out=z, constant=arg))
+        if what == "iadd_target":
+            z = make("float64", t["cz"])
+            x = make(t["ka"], t["ca"])
+
+            def f():
+                zz = z
+                zz += x
+                return zz
+            return outcome(f)
+        if what == "setitem_target":
+            z = make("float64", t["cz"])
+            x = make(t["ka"], t["ca"])
+
+            def g():
+                z[:2] = x[:2]
+                return z
+            return outcome(g)
         if what == "copy":
             a = make(t["ka"], t["ca"])
             return outcome(lambda: a.copy(constant=arg))
